@@ -1,6 +1,6 @@
 """C11 — no subform is silently dropped: R-LIN over every compile function, unpack exhaustiveness, slot usage."""
 CANON = True
-STRICT = {"R-LIN-ANON", "R-LIN-VAR", "R-LIN-PATH", "R-EXPR-STORE", "R-LIN-ROLE", "R-SLOT", "UNPACK", "ARGS"}
+STRICT = {"R-LIN-ANON", "R-LIN-VAR", "R-LIN-PATH", "R-EXPR-STORE", "R-REC-FWD", "R-LIN-ROLE", "R-SLOT", "UNPACK", "ARGS"}
 
 import ast
 
@@ -67,6 +67,13 @@ def _consumed(load, R, func, depth=0):
     return None
 
 
+def _same_branch(load, call, fn):
+    """Does `load` execute whenever `call` does (it is in the same block as the call or in an enclosing one)?"""
+    lg = [(id(t), pol) for t, pol in pyq.guards(load, fn)]
+    cg = [(id(t), pol) for t, pol in pyq.guards(call, fn)]
+    return lg == cg[:len(lg)] or set(lg) <= set(cg)
+
+
 def _nnf_atoms(guards):
     """Conjuncts (as text) of the path condition in negation normal form."""
     from .. import canon
@@ -108,6 +115,7 @@ def check(ctx, src):
     ctx.rule("R-LIN-VAR", "every Result bound to a variable has a consuming use (added with +/+=, returned, its .stmts placed, passed to a consuming helper, stored in a container)")
     ctx.rule("R-LIN-PATH", "the value of a Result variable is never placed (.expr/.force_expr) in a branch that excludes every use that places its statements, unless the path condition says it has none")
     ctx.rule("R-EXPR-STORE", "a compile function that stores to `.expr` of a Result it got from a sub-form also clears that Result's temp_variables (as Result.__add__ would)")
+    ctx.rule("R-REC-FWD", "a recursive call hands on every defaulted parameter that the function uses, or the branch making the call uses that parameter itself")
     ctx.rule("R-LIN-ROLE", "no sub-form has its value placed in the output while its statements are placed nowhere")
     ctx.rule("R-SLOT", "every sub-form slot of a pattern macro is referenced by the function that compiles it")
     ctx.rule("UNPACK", "_compile_collect: a `#**` element is appended to an output list under every flag combination, or a syntax error is raised")
@@ -234,6 +242,35 @@ def check(ctx, src):
                            f"`{norm(n)[:70]}` replaces the expression of a Result that still carries the temp_variables of the sub-form it was compiled from, and they are never cleared: "
                            "`(setv x <this form>)` renames that temporary to x and throws this expression (and the sub-forms compiled into it) away", m.rel, n.lineno,
                            witness="(setv r (<form> (if c (do (g) a) b) ...)): the rest of the form is never evaluated")
+
+    # --- recursive calls: a defaulted parameter that the function uses must be handed on, or used on the way to the call
+    for m in (comp.rm, comp.cp, comp.sc):
+        for q, fn in m.funcs.items():
+            a = fn.args
+            defaulted = [x.arg for x in a.args[len(a.args) - len(a.defaults):]] + [x.arg for x, d in zip(a.kwonlyargs, a.kw_defaults) if d is not None]
+            if not defaulted:
+                continue
+            rec = [c for c in ast.walk(fn) if isinstance(c, ast.Call) and ((isinstance(c.func, ast.Name) and c.func.id == fn.name) or
+                                                                          (isinstance(c.func, ast.Attribute) and c.func.attr == fn.name and isinstance(c.func.value, ast.Name) and c.func.value.id in ("self", "cls")))]
+            if not rec:
+                continue
+            pos = [x.arg for x in a.args if x.arg not in ("self", "cls")]
+            in_rec = {id(n) for c in rec for n in ast.walk(c)}
+            for p in defaulted:
+                loads = [n for n in ast.walk(fn) if isinstance(n, ast.Name) and n.id == p and isinstance(n.ctx, ast.Load) and id(n) not in in_rec]
+                if not loads:
+                    continue
+                for c in rec:
+                    passed = set(pos[:len(c.args)]) | {k.arg for k in c.keywords}
+                    if any(k.arg is None for k in c.keywords) or p in passed:
+                        ctx.ok("R-REC-FWD", f"{m.rel}|{q}|{norm(c)[:40]}|{p}", "forwarded")
+                        continue
+                    cg = {(id(t), pol) for t, pol in pyq.guards(c, fn)}
+                    used_on_path = any({(id(t), pol) for t, pol in pyq.guards(n, fn)} <= cg and (n.lineno, n.col_offset) < (c.lineno, c.col_offset) + (10 ** 6,) for n in loads
+                                       if _same_branch(n, c, fn))
+                    ctx.decide("R-REC-FWD", f"{m.rel}|{q}|{norm(c)[:40]}|{p}", used_on_path,
+                               f"the recursive call `{norm(c)[:60]}` does not pass `{p}` on and the branch that makes it never uses `{p}`: what the caller handed in is silently dropped on this path",
+                               m.rel, c.lineno, witness="the sub-forms / context carried by that parameter are lost when this branch recurses")
 
     # --- role level: value placed but statements nowhere -----------------------------------------
     for r in comp.registry:
